@@ -1,11 +1,11 @@
 SPECIFICATION Spec
 CONSTANTS
-  Names <- NamesSmall
+  Names <- NamesHist
   DirNames <- DirsQuick
-  MaxMembers = 3
-  GlobClasses <- AllClasses
-  MinReq = 1
-  MaxReq = 1
+  MaxMembers = 2
+  GlobClasses <- HistClasses
+  MinReq = 3
+  MaxReq = 3
   Emit = TRUE
 INVARIANTS Confined NeverHostile DistinctTargets ExactMatchesItself EmitScn
 CHECK_DEADLOCK FALSE
